@@ -124,3 +124,44 @@ class Affine:
 
     def inverse_transform(self, X):
         return np.asarray(X) * self.scale_ + self.loc
+
+
+# ---------------------------------------------------------------------------------------------------------------
+# real fits.  The repository's bisecting k-means calls BaseEstimator._validate_data, which scikit-learn 1.6+ no longer
+# has (it became sklearn.utils.validation.validate_data): HourlyModel.fit raises AttributeError in the pinned environment.
+# The harness (not the repository) restores the old spelling, which makes a year of hourly data fit in about two seconds.
+
+def enable_fit():
+    from sklearn.base import BaseEstimator
+    from sklearn.utils import validation as _v
+    if not hasattr(BaseEstimator, "_validate_data") and hasattr(_v, "validate_data"):
+        def _validate_data(self, *a, **k):
+            return _v.validate_data(self, *a, **k)
+        BaseEstimator._validate_data = _validate_data
+
+
+def baseline_frame(noise=0.05, days=365, tz="US/Pacific", seed=0, gaps=(), solar=False):
+    """a year of hourly data following a V-shaped temperature response; gaps: list of (column, first row, last row)"""
+    idx = pd.date_range(pd.Timestamp("2021-01-01", tz=tz), periods=24 * days, freq="h")
+    rng = np.random.default_rng(seed)
+    k = np.arange(len(idx))
+    T = 60 + 20 * np.sin(k * 2 * np.pi / (24 * 365)) + 5 * np.sin(k * 2 * np.pi / 24) + rng.normal(0, 1, len(idx))
+    if noise == "spiky":  # nearly flat usage with rare large spikes: neither ratio can pass
+        obs = 0.5 + 0.01 * rng.random(len(idx)) + (rng.random(len(idx)) < 0.02) * 100.0
+    else:
+        obs = 1 + 0.05 * np.abs(T - 60) + rng.normal(0, noise, len(idx))
+    df = pd.DataFrame({"temperature": T, "observed": np.abs(obs) + 0.01}, index=idx)
+    if solar:
+        df["ghi"] = np.clip(400 * np.sin((k % 24 - 6) * np.pi / 12), 0, None)
+    for col, a, b in gaps:
+        df.iloc[a:b, df.columns.get_loc(col)] = np.nan
+    return df
+
+
+def fitted(noise=0.05, gaps=(), settings=None, **kw):
+    from opendsm.eemeter.models.hourly.data import HourlyBaselineData
+    enable_fit()
+    data = HourlyBaselineData(baseline_frame(noise=noise, gaps=gaps, **kw), is_electricity_data=True)
+    m = HourlyModel(settings=settings) if settings else HourlyModel()
+    m.fit(data, ignore_disqualification=True)
+    return m, data
